@@ -61,7 +61,9 @@ def doc_hook(I, p, fr, t, args):
             return Doc([("line",)])
         if n in ("hardline",):
             return Doc([("hardline",)])
-        if n in ("line_", "softline", "softline_", "nil"):
+        if n in ("line_", "softline", "softline_"):
+            return Doc([("softline",)])      # a place where the layout may break the line (prints nothing when it does not)
+        if n in ("nil",):
             return Doc([])
         if n in LAYOUT_ONLY or n in ("clone", "to_owned", "borrow", "deref"):
             return to_doc(I, args[0])
@@ -73,6 +75,9 @@ def doc_hook(I, p, fr, t, args):
         if n in ("intersperse", "concat"):
             src = I.deref(args[1]) if len(args) > 1 else None
             items = src.items if isinstance(src, Vec) else None
+            from .interp import Iter as _Iter
+            if items is None and isinstance(src, _Iter) and src.items is not None:
+                items = src.items[src.pos:]
             if items is None:
                 from .interp import Iter
                 if isinstance(src, Iter) and src.sym is not None:
